@@ -139,6 +139,26 @@ Theorem C14_session_accepts : forall st f, sreachable st -> sess_closed st = fal
 Proof. exact session_accepts. Qed.
 Print Assumptions C14_session_accepts.
 
+(* Relay level (design finding F15, reproduced on loopback UDP by harness/client/c14_udp_test.go):
+   around the Stream interface, client.RouteUDP reads each datagram of the local application into
+   an 8192-byte buffer.  The property taken at the relay - every datagram that fits one frame is
+   forwarded whole - is FALSE of the faithful model; what holds is stated as C14_relay_partial. *)
+Definition C14_relay_full : Prop := forall d,
+  (0 < Z.of_nat (length d) <= max_unit 16401)%Z ->
+  route_udp_up (max_unit 16401) d = (Z.of_nat (length d), SwNil, [d]).
+
+Theorem C14_relay_refuted : ~ C14_relay_full.
+Proof. exact relay_refuted. Qed.
+Print Assumptions C14_relay_refuted.
+
+Theorem C14_relay_partial : forall maxu d, (Z.of_N relay_buf <= maxu)%Z ->
+  ((0 < N.of_nat (length d) <= relay_buf)%N ->
+     route_udp_up maxu d = (Z.of_nat (length d), SwNil, [d]))
+  /\ ((relay_buf < N.of_nat (length d))%N ->
+     route_udp_up maxu d = (Z.of_N relay_buf, SwNil, [firstn (N.to_nat relay_buf) d])).
+Proof. exact relay_partial. Qed.
+Print Assumptions C14_relay_partial.
+
 (* non-vacuity: a concrete run with short reads, an empty datagram, a closing frame *)
 Theorem C14_example_run :
   let es := [Wr false [1;2;3]; Rd 2; Wr false [4]; Wr false []; Rd 3; Rd 0; Rd 5; Rd 1; Wr true [9]; Rd 1; Wr false [7]]%N in
